@@ -30,6 +30,8 @@ SIMPLE = {
     'color': ('t:color', lambda r: r.choice(['red', 'green', 'blue']), ['RED', 'pink', '']),
     'ints': ('t:ints', lambda r: ' '.join(str(r.randint(0, 9)) for _ in range(r.randint(1, 4))), ['1 x', 'a']),
     'intOrBool': ('t:intOrBool', lambda r: r.choice(['5', 'true', '-3', 'false']), ['maybe', '1.5', '']),
+    # a union restricted by a pattern: the facet is applied to the member that accepts the value
+    'patUnion': ('t:patUnion', lambda r: r.choice(['5', 'true', '12', 'false']), ['maybe', '1.5', '-3', '']),
 }
 NAMED_SIMPLE = (
     '<xs:simpleType name="pct"><xs:restriction base="xs:int"><xs:minInclusive value="0"/>'
@@ -37,7 +39,15 @@ NAMED_SIMPLE = (
     '<xs:simpleType name="color"><xs:restriction base="xs:token"><xs:enumeration value="red"/>'
     '<xs:enumeration value="green"/><xs:enumeration value="blue"/></xs:restriction></xs:simpleType>'
     '<xs:simpleType name="ints"><xs:list itemType="xs:int"/></xs:simpleType>'
-    '<xs:simpleType name="intOrBool"><xs:union memberTypes="xs:int xs:boolean"/></xs:simpleType>')
+    '<xs:simpleType name="intOrBool"><xs:union memberTypes="xs:int xs:boolean"/></xs:simpleType>'
+    '<xs:simpleType name="patUnion"><xs:restriction base="t:intOrBool"><xs:pattern value="[0-9a-z]+"/>'
+    '</xs:restriction></xs:simpleType>')
+
+
+def named_simple(tns):
+    return NAMED_SIMPLE if tns else NAMED_SIMPLE.replace('base="t:', 'base="')
+
+
 OCC = [(1, 1), (1, 1), (0, 1), (0, None), (1, None)]
 OCC_SEQ = OCC + [(2, 3), (0, 2)]
 
@@ -176,7 +186,7 @@ class Gen:
         t = ' targetNamespace="%s" xmlns:t="%s"' % (self.tns, self.tns) if self.tns else ''
         q = ' elementFormDefault="qualified"' if self.qual else ''
         return '<xs:schema xmlns:xs="%s"%s%s>%s%s</xs:schema>' % (
-            XS, t, q, NAMED_SIMPLE, self.x_elem(self.root))
+            XS, t, q, named_simple(self.tns), self.x_elem(self.root))
 
     # ---- content model of an element as a cm AST over child names (for fault knowledge)
     def cm_of(self, e):
@@ -461,7 +471,7 @@ def xsd_components(g):
     element.  Returns (schema attributes text, [global component texts]) so that a caller can permute
     the components or distribute them over included documents without touching their content."""
     comps = []
-    for m in NAMED_SIMPLE.split('</xs:simpleType>'):
+    for m in named_simple(g.tns).split('</xs:simpleType>'):
         if m:
             comps.append(m + '</xs:simpleType>')
     p = 't:' if g.tns else ''
